@@ -277,6 +277,20 @@ def generate(tier, seed):
         for order in (ids, ids[::-1]):
             recs.append({'driver': 'conn', 'kind': kind_, 'family': 'big-ids', 'battery': False, 'nv_total': 131072,
                          'variants': [{'p': p_.astype(int).tolist(), 't': np.asarray(order)[t_].tolist(), 'ids': list(order)}]})
+    # --- point arrays with points that belong to no cell BETWEEN the used ones (what `ma, mb = m1 @ m2` returns, mesh files
+    #     with stray nodes): every cell type, small gaps
+    for kind_, (p_, t_) in (('line', U.line_points([0, 1, 3, 4])), ('tri', U.tri_lattice(2, 1, (0, 1))), ('quad', U.quad_grid(2, 1)),
+                            ('tet', U.tet_cubes(1, 6)), ('hex', U.hex_grid(2, 1, 1)),
+                            ('wedge', U.wedge_extrude(*U.tri_lattice(1, 1, (0,)), nz=2))):
+        nvk = p_.shape[1]
+        for rep_ in range(2):
+            ids = np.sort(rng.choice(2 * nvk + 3, size=nvk, replace=False))
+            if rep_ == 1:
+                ids = ids[rng.permutation(nvk)]
+            recs.append({'driver': 'conn', 'kind': kind_, 'family': 'gaps' if kind_ != 'wedge' else 'UW', 'battery': False,
+                         'nv_total': int(2 * nvk + 3),
+                         'variants': [{'p': p_.astype(int).tolist(), 't': np.asarray(ids)[t_].astype(int).tolist(),
+                                       'ids': [int(v) for v in ids]}]})
     # --- random tier: integer Delaunay
     nrand = 400 if thorough else 30
     for j in range(nrand):
